@@ -44,6 +44,8 @@ func (h *liquidBlockHeaderSubscriber) Register(tx TXObserver) {
 }
 
 func (h *liquidBlockHeaderSubscriber) Deregister(o TXObserver) {
+	h.mu.Lock()
+	defer h.mu.Unlock()
 	newObservers := make([]TXObserver, 0, len(h.txObservers))
 	for _, observer := range h.txObservers {
 		if observer.GetSwapID() != o.GetSwapID() {
@@ -54,9 +56,15 @@ func (h *liquidBlockHeaderSubscriber) Deregister(o TXObserver) {
 }
 
 func (h *liquidBlockHeaderSubscriber) Update(ctx context.Context, blockHeight BlockHeight) error {
+	// The callbacks run the state machines of the swaps. A swap that is
+	// handling a message holds its own mutex and may be about to register an
+	// observer here: never call back with the subscriber's mutex held.
 	h.mu.Lock()
-	defer h.mu.Unlock()
-	for _, observer := range h.txObservers {
+	observers := make([]TXObserver, len(h.txObservers))
+	copy(observers, h.txObservers)
+	h.mu.Unlock()
+
+	for _, observer := range observers {
 		callbacked, err := observer.Callback(ctx, blockHeight)
 		if callbacked {
 			if err == nil || errors.Is(err, swap.ErrSwapDoesNotExist) {
